@@ -39,10 +39,19 @@ type Stack struct {
 	// ReadOps adds get(k) to the move alphabet (layers with read-dependent
 	// hidden state, i.e. the cache).
 	ReadOps bool
+	// CancelOps adds putx(k): a Put issued with a request context that is already
+	// cancelled.  Either it takes effect (nil error) or it fails and changes nothing
+	// that a later read can see.  The instance must implement CancelPutter.
+	CancelOps bool
 	// Extra is an optional additional per-state check (e.g. "parent store
 	// outside the view is untouched", scan/clear helpers).  It receives the
 	// reference content.
 	Extra func(kv KV, ref map[string]string) error
+}
+
+// CancelPutter: Put with a context that is already cancelled.
+type CancelPutter interface {
+	PutCancelled(k string, v []byte) error
 }
 
 type Op struct {
@@ -52,8 +61,8 @@ type Op struct {
 }
 
 func (o Op) String() string {
-	if o.Kind == "put" {
-		return fmt.Sprintf("put(%q,%s)", short(o.Key), o.Val)
+	if o.Kind == "put" || o.Kind == "putx" {
+		return fmt.Sprintf("%s(%q,%s)", o.Kind, short(o.Key), o.Val)
 	}
 	return fmt.Sprintf("%s(%q)", o.Kind, short(o.Key))
 }
@@ -160,6 +169,14 @@ func apply(st *Stack, hist []Op) (KV, func(), map[string]string, map[string]stri
 				return kv, cleanup, ref, last, fmt.Errorf("step %d %s: unexpected error %v", i, op, err)
 			}
 			ref[op.Key] = op.Val
+		case "putx":
+			cp, ok := kv.(CancelPutter)
+			if !ok {
+				return kv, cleanup, ref, last, fmt.Errorf("harness: stack %s has no PutCancelled", st.Name)
+			}
+			if err := cp.PutCancelled(op.Key, []byte(op.Val)); err == nil {
+				ref[op.Key] = op.Val
+			}
 		case "delete":
 			if err := kv.Delete(op.Key); err != nil {
 				return kv, cleanup, ref, last, fmt.Errorf("step %d %s: unexpected error %v", i, op, err)
@@ -293,6 +310,13 @@ func Run(res *vout.Result, st *Stack, depth int) {
 	if st.ReadOps {
 		for _, k := range keys {
 			alphabet = append(alphabet, Op{"get", k, ""})
+		}
+	}
+	if st.CancelOps {
+		for i, k := range keys {
+			if i < 2 {
+				alphabet = append(alphabet, Op{"putx", k, "9"})
+			}
 		}
 	}
 	res.Bound(st.Name+".keys", len(keys))
